@@ -1197,6 +1197,57 @@ pub fn shard_run_c16(tier: &str, seed: u64, replay_case: Option<usize>, shard: S
             }
         }
     }
+    // the real executable with an allow-list, at every log level: listed clients served, others refused
+    if replay_case.is_none() && shard.mine(4) {
+        use crate::http::{socket_request, Framing};
+        use std::time::Duration;
+        match crate::net::server_bin() {
+            None => out.errors.push("the server executable is not built".into()),
+            Some(bin) => {
+                let mut rng = Rng::new(seed).fork(0xC16B);
+                for (li, level) in ["info", "debug", "warn", "trace", "error", ""].iter().enumerate() {
+                    let listed: Vec<Uuid> = (0..1 + li % 3).map(|_| rng.uuid_any()).collect();
+                    let stranger = rng.uuid_any();
+                    let dir = crate::scratch::ScratchDir::new("c16bin");
+                    let Some(port) = crate::net::free_port() else { continue };
+                    let addr = format!("127.0.0.1:{port}");
+                    let mut args: Vec<String> = vec!["--listen".into(), addr.clone(), "--data-dir".into(), dir.path().to_string_lossy().to_string()];
+                    let mut env: Vec<(String, String)> = vec![];
+                    if li % 2 == 0 {
+                        for id in &listed {
+                            args.push("--allow-client-id".into());
+                            args.push(id.to_string());
+                        }
+                    } else {
+                        env.push(("CLIENT_ID".into(), listed.iter().map(|i| i.to_string()).collect::<Vec<_>>().join(",")));
+                    }
+                    env.push(("RUST_LOG".into(), level.to_string()));
+                    let Ok(mut proc) = crate::net::Proc::start(&bin, &args, &env, &[addr.clone()], Duration::from_secs(20)) else { continue };
+                    let nil = Uuid::nil();
+                    for (who, id, want_served) in listed.iter().map(|i| ("listed", *i, true)).chain([("unlisted", stranger, false)]) {
+                        let reqs = [
+                            HttpReq::new("GET", &format!("/v1/client/get-child-version/{nil}")).header("X-Client-Id", &id.to_string()),
+                            HttpReq::new("POST", &format!("/v1/client/add-version/{nil}")).header("X-Client-Id", &id.to_string()).header("Content-Type", CT_HISTORY).body(vec![1, 2, 3]),
+                            HttpReq::new("GET", "/v1/client/snapshot").header("X-Client-Id", &id.to_string()),
+                        ];
+                        for r in reqs {
+                            let resp = socket_request(&addr, &r, Framing::ContentLength, Duration::from_secs(20));
+                            cov.evaluations += 1;
+                            cov.hit(format!("executable|RUST_LOG={level}|{who}|status={}", resp.status));
+                            let bad = if want_served { resp.status == 403 || resp.status >= 500 || resp.failure.is_some() } else { resp.status != 403 };
+                            if bad {
+                                proc.kill9();
+                                out.found.push(found("C16", format!("the real executable with RUST_LOG={level:?} and the allow-list {:?}: {} of the {who} client {id} was answered {}", listed, r.describe(), resp.describe()), json!({"origin": "c16-executable", "case": li})));
+                                out.cov = cov;
+                                return out;
+                            }
+                        }
+                    }
+                    proc.kill9();
+                }
+            }
+        }
+    }
     // a listed client's oversized upload: refused exactly as on a server without a list
     if replay_case.is_none() && shard.mine(3) {
         let probe = Fixture::new(Backend::Mem, seed, None);
